@@ -134,7 +134,10 @@ def apply_cif_quirks(text, spec):
         data["symmetry_equiv_pos_as_xyz"] = ops
         for k, d in zip(("atom_site_fract_x", "atom_site_fract_y", "atom_site_fract_z"), shift):
             data[k] = [float(v) + float(d) for v in data[k]]
-        data = dict([("symmetry_Int_Tables_number", int(spec["sg"][0]))] + list(data.items()))
+        if sum(map(ord, "".join(spec["elements"]))) % 2 == 0:
+            # (for half of the structures) with the IT number; without it the
+            # reader files the group under number 1
+            data = dict([("symmetry_Int_Tables_number", int(spec["sg"][0]))] + list(data.items()))
     if "symop_new_key" in quirks and "symmetry_equiv_pos_as_xyz" in data:
         data = {
             {"symmetry_equiv_pos_as_xyz": "space_group_symop_operation_xyz",
